@@ -140,7 +140,7 @@ Emit ==
   /\ pc' = "emitted"
   /\ UNCHANGED <<W0, start, Wl, nl, cur, m, knmo, knmi, kmo, kmi, order, pos, flag, sweeps, h, qs, res, hist>>
 
-Next == \/ \E p \in Perms(nl) : BeginSweep(p)
+Next == \/ (pc = "sweep" /\ \E p \in Perms(nl) : BeginSweep(p))   \* guard first: Perms is costly
         \/ Visit \/ EndSweep \/ Aggregate \/ Emit
 Spec == Init /\ [][Next]_vars
 
